@@ -5,6 +5,7 @@
 //   1 start end cleanup
 //   12 variant        1: map_sink_(TSD) child{solo}   2: map_sink_(TSD) child{head -> tail}
 //                     3: map_(dynamic TSL) child{head}, output to null_sink
+//                     4: reduce_(TSD, zero 0) with a static-node combiner (one child graph per tree position)
 //   13 c k v          in replay cycle c set key (TSL: index) k to v
 //   14 c k            in replay cycle c remove key k (TSD only)
 //   5 phase n len 1 <500+pos> [flavour]   the n-th invocation (over all children) of the hook of the
@@ -115,6 +116,15 @@ namespace hgv_dyn
             static_cast<void>(ts.value() + key.value());
         }
     };
+    struct Comb : Probe<0>   // reduce combiner
+    {
+        static constexpr auto name = "hgv_dyn_comb";
+        static void eval(In<"lhs", TS<Int>> lhs, In<"rhs", TS<Int>> rhs, State<Int> state, Out<TS<Int>> out)
+        {
+            hook(0, 1, static_cast<std::int64_t>(state.get()));
+            out.set(lhs.value() + rhs.value());
+        }
+    };
     struct Child2
     {
         static constexpr auto name = "hgv_dyn_child2";
@@ -205,7 +215,13 @@ namespace hgv_dyn
         try
         {
             Wiring w;
-            if (variant == 3)
+            if (variant == 4)
+            {
+                auto source = wire<stdlib::replay_impl, TSD<Int, TS<Int>>>(w, Str{"source"});
+                auto red    = wire<stdlib::reduce_>(w, fn<Comb>(), source, Int{0}).as<TS<Int>>();
+                wire<stdlib::null_sink>(w, red);
+            }
+            else if (variant == 3)
             {
                 auto source = wire<stdlib::replay_impl, TSL<TS<Int>>>(w, Str{"source"});
                 auto mapped = wire<stdlib::map_>(w, fn<HeadL>(), source).as<TSL<TS<Int>>>();
